@@ -65,7 +65,7 @@ def handle : List String → String
   | ["val", sp] =>
     match parseSpans sp with
     | some spans =>
-      let (s, ok) := validateSpans spans
+      let (s, ok) := validateSpansU64 spans
       (if ok then "ok " else "err ") ++ fmtSpans s
     | none => "bad-op"
   | ["mover", b] =>
@@ -79,7 +79,7 @@ def handle : List String → String
     match b.toNat?, parseFile f, parseSpans sp with
     | some b, some f, some spans =>
       if !budgetOk b then "bad-op" else
-      let r := extractCompact (moverNew b) f spans
+      let r := extractCompactU64 (moverNew b) f spans
       match r.saved with
       | some n => s!"ok saved={n} " ++ fileObs r.file
       | none => "err " ++ fileObs r.file
@@ -112,6 +112,26 @@ def handle : List String → String
           ",".intercalate (p.moves.map fun m => s!"{m.src}+{m.srcOff}>{m.dst}@{m.dstOff}+{m.len}")
         s!"{ms} total={p.total} srcs={fmtList p.srcs} tgts={fmtList p.tgts}"
     | _, _, _ => "bad-op"
+  | ["exec", b, thr, size, sg] =>
+    match b.toNat?, parseHexNat thr, size.toNat?, parseSegs sg with
+    | some b, some tb, some size, some segs =>
+      if !budgetOk b || tb.length ≠ 8 || size ≥ 2 ^ 64 || segs.length > 64 ||
+          segs.any (fun s => s.used > 2 ^ 20) then "bad-op" else
+      let bits := tb.foldl (fun a x => a * 256 + x) 0
+      let t := Float.ofBits bits.toUInt64
+      let isSource := fun (used : Nat) => decide (f64 used / f64 size < t)
+      let files := (List.range segs.length).zip segs |>.map fun (i, sg) =>
+        (List.range sg.used).map (genByte · (i * 17 + 3))
+      match planMerge isSource size segs with
+      | none => "panic"
+      | some p =>
+        match execPlan (moverNew b) files p.moves with
+        | none => "err"
+        | some (final, m) =>
+          let fs := if final.isEmpty then "-" else
+            ",".intercalate (final.map fun f => s!"{f.length}:{hexFixed 16 (fnv64 f).toNat}")
+          s!"ok moves={p.moves.length} moved={m.moved} {fs}"
+    | _, _, _, _ => "bad-op"
   | ["arch", pre, ws] =>
     match pre.toNat? with
     | some pre =>
